@@ -106,6 +106,7 @@ def run_glob(R, ctx):
     obs, se, rc = core.run_harness(binary, "glob", cor + lines + rnd)
     R.oblige("harness glob engine ran to completion", "run", rc == 0 and len(obs) == len(cor) + len(lines) + len(rnd), se[-300:])
     d = core.run_driver(obs)
+    core.negative_control(R, obs, "glob", skip=lambda l: l.startswith("GE "))
     nsub = len(all_strings(ALPHA, S))
     evals = len(lines) * nsub + len(rnd)
     R.add_cases(evals, int(d["summary"].get("positive", 0)), samples=[obs[7], obs[len(obs) // 3][:200], obs[-1]])
